@@ -13,7 +13,7 @@ fn main() {
          operator groups from every config-schema operator, initial methods, termination, pools x threads) solved through read_config -> get_solution_serialized; \
          a share of the cases is re-solved with relations derived from a feasible tour, another share with maxDistance / maxDuration / tourSize / shift end tightened to just below what a feasible solution uses (so that those rules bind). Oracle: O1 replays the solution JSON from the documents only. \
          Non-trivial = at least one tour and (a hard rule binding: slack <= 1 unit, for distance / duration / shift end <= a tenth of the limit, or a job unassigned); distinct by (problem shape, config shape, phase).",
-        75,
+        200,
         600,
     );
     if let Some(path) = run.replay.clone() {
